@@ -278,6 +278,14 @@ func getSignatureAlgorithmByHash(hash Hash, oid asn1.ObjectIdentifier) Signature
 		switch {
 		case oid.Equal(oidDSASM2):
 			return SM2WithSHA256
+		case oid.Equal(oidSignatureSHA256WithRSA), oid.Equal(oidEncryptionAlgorithmRSA):
+			return SHA256WithRSA
+		}
+	case SHA1:
+		// what AddSigner produces
+		switch {
+		case oid.Equal(oidSignatureSHA1WithRSA), oid.Equal(oidEncryptionAlgorithmRSA):
+			return SHA1WithRSA
 		}
 	}
 	return UnknownSignatureAlgorithm
